@@ -24,7 +24,11 @@ def register(R):
     ] + list(MEMO_INV))
     R.contract(Q + "._compute_drift_threshold", tags=("C10",), modular=True,
                params={"M_nnps": "Mat", "v_ref": "Vec", "v_test": "Vec", "sampling_times": "Int", "alpha": "Real"},
-               result="Real", ensures=[], modifies=[], check_invariant=False, assume_invariant=False)
+               result="Real", ensures=[], modifies=[], check_invariant=False, assume_invariant=False,
+               # verified with the permutation loop abstracted (its body is not verified; recorded as an assumption): the
+               # tail - norm.fit, norm.ppf - returns a real number, nothing is modified, no exception escapes the tail
+               loops={0: {"abstract": True, "index": "k0", "havoc_locals": ["d_shuffle", "v1_shuffle", "v2_shuffle", "d_i_shuffle"],
+                          "types": {"d_shuffle": "AnyList"}, "invariant": []}})
     # C17: a smaller alpha never lowers the critical value.  Two runs of the real function on the same matrix, membership
     # vectors and number of re-assignments; the sampling loop is abstracted (its body is not verified here) and shown not
     # to read alpha (dependency analysis), so both runs fit the same sample; the tail - norm.fit, norm.ppf(1 - alpha, mu,
